@@ -80,6 +80,14 @@ func NewHost() *Host {
 		ch <- v
 		return ch
 	})
+	h.Env.Define("gchc", func(vs ...interface{}) interface{} {
+		ch := make(chan interface{}, len(vs)+1)
+		for _, v := range vs {
+			ch <- v
+		}
+		close(ch)
+		return ch
+	})
 	h.Env.Define("gtyped", func(a int64, b string, c int64) interface{} { return list(a, b, c) })
 	h.Env.Define("gtvar", func(a string, rest ...int64) interface{} {
 		out := []interface{}{a}
